@@ -61,6 +61,9 @@ def run(chk, ctx):
     chk.ob('C18.B', 'body encode', okk, 'marshal -> %s' % T.show(v)[:120],
            detail={'expected': 'header(3, channel, len(value)) ++ value ++ '
                    '0xCE'}, site='pamqp/body.py / pamqp/frame.py')
+    okc, whyc = L.channel_acceptance(outs)
+    chk.ob('C18.B', 'body channels', okc, whyc,
+           site='pamqp/frame.py::marshal')
     # __len__
     bci = prog.cls('body.ContentBody')
     lm = prog.find_method(bci, '__len__')
@@ -217,7 +220,7 @@ def run(chk, ctx):
                '; may raise %s' % raises[0].exc if raises else ''),
            site='pamqp/body.py')
     composed(chk, ctx, f, marshal_of)
-    chk.floor('C18.B', 5, 'body facts')
+    chk.floor('C18.B', 6, 'body facts')
     chk.floor('C18.V', 3, 'protocol header facts')
     chk.floor('C18.K', 2, 'heartbeat facts')
     chk.assume('a 131 072-byte body fits in memory')
